@@ -43,6 +43,9 @@ PURE_STR_METHODS = {'encode', 'decode', 'lower', 'upper', 'split', 'rsplit', 'st
                     'rpartition', 'splitlines', 'title', 'capitalize', 'index', 'rindex'}
 
 
+PLATFORM_ABSENT_FLAGS = {'O_NOINHERIT', 'O_BINARY', 'O_TEMPORARY', 'O_SHORT_LIVED', 'O_SEQUENTIAL', 'O_RANDOM', 'O_TEXT'}
+
+
 class Folder:
     def __init__(self, module, platform_has=('O_NOFOLLOW',)):
         self.module = module
@@ -193,6 +196,15 @@ class Folder:
                 else:
                     raise Unknown('f-string with holes')
             return out
+        if isinstance(e, ast.Call) and isinstance(e.func, ast.Name) and e.func.id == 'getattr' and len(e.args) == 3 and \
+                isinstance(e.args[0], ast.Name) and self.module.imports.get(e.args[0].id, e.args[0].id) == 'os' and \
+                isinstance(e.args[1], ast.Constant) and isinstance(e.args[1].value, str) and e.args[1].value.startswith('O_'):
+            # getattr(os, 'O_X', default): the platform model of sa/index.py (POSIX: O_NOFOLLOW present, O_NOINHERIT / O_BINARY absent)
+            flag = e.args[1].value
+            if flag in PLATFORM_ABSENT_FLAGS:
+                d = self.fold(e.args[2], upto, env)
+                return Flags() if d == 0 else d
+            return Flags({flag})
         if isinstance(e, ast.Call):
             fn = ast.unparse(e.func)
             args = [self.fold(a, upto, env) for a in e.args]
